@@ -595,7 +595,8 @@ def u23(led, rid, ctx):
     """conflict resolution always hands the solver back in the Solving state (MUST-PASS), whether or
     not a nogood was learned"""
     lib = ctx.lib
-    f = lib.method("ConstraintSatisfactionSolver", "resolve_conflict_with_nogood")
+    from .shared import method_view as _mv
+    f = _mv(lib, "ConstraintSatisfactionSolver", "resolve_conflict_with_nogood", keep=("add_learned_nogood", "add_asserting_nogood_to_nogood_propagator", "backtrack", "process", "resolve_conflict", "prepare_for_conflict_resolution", "declare_solving", "log_learned_clause", "log_learned_nogood", "decay_nogood_activities"))
     cfg = f.cfg
     ds = f.calls_named("declare_solving")
     ok = bool(ds) and all(any(cfg.dominates(c.bb, r) for c in ds) for r in cfg.returns)
